@@ -566,3 +566,22 @@ Proof.
     - apply IH; intros; apply Hall; auto. }
   rewrite <- (G _ Hc Hl). exact P.
 Qed.
+
+(** ** The reserved namespace refs/remotes/git/ *)
+Lemma lit_reserved_ns : C33_RESERVED_NS = REMOTES ++ LOCAL ++ [SLASH]. Proof. reflexivity. Qed.
+
+Lemma reserved_ns_not_imported x : parse_git_ref (C33_RESERVED_NS ++ x) = None.
+Proof.
+  apply parse_none_iff. rewrite lit_reserved_ns. repeat split.
+  - intros n E. exfalso. rewrite <- !app_assoc in E. symmetry in E.
+    exact (app_ns_neq _ _ ns_heads_remotes _ _ E).
+  - intros rm n E Hs. left.
+    rewrite <- !app_assoc in E. apply app_inv_head in E.
+    assert (S1 : split_once SLASH (LOCAL ++ SLASH :: x) = Some (LOCAL, x))
+      by (apply split_once_app; reflexivity).
+    assert (S2 : split_once SLASH (rm ++ SLASH :: n) = Some (rm, n))
+      by (apply split_once_app, no_slash_iff; auto).
+    cbn [app] in E. rewrite E in S1. congruence.
+  - intros n E. rewrite <- !app_assoc in E. symmetry in E.
+    exact (app_ns_neq _ _ ns_remotes_tags _ _ (eq_sym E)).
+Qed.
